@@ -18,7 +18,7 @@ RULE = ('all basic index expressions over the alphabet {int, negative int, numpy
         'every axis, zeros/ones(-like); D in {1,2,3}, P in {1,2,3}, values real/complex/non-finite (exact comparison); '
         'a class = (op, argument class, D, P, value kind); non-trivial = result has >= 1 element or the op moves data')
 ASSUMPTIONS = ['NumPy applied to each (d,p) coefficient slice is the specification', 'data movement is compared bit-exactly (NaN == NaN)']
-REQUIRED = ['getitem', 'getitem:view', 'setitem:utpm', 'setitem:bcast', 'setitem:ndarray', 'setitem:scalar', 'setitem:alias', 'writethrough', 'reshape', 'transpose',
+REQUIRED = ['getitem', 'getitem:view', 'setitem:utpm', 'setitem:bcast', 'setitem:leading1', 'setitem:ndarray', 'setitem:scalar', 'setitem:alias', 'writethrough', 'reshape', 'transpose',
             'transpose:view', 'sum', 'tile', 'diag', 'triu', 'tril', 'trace', 'symvec', 'vecsym', 'neg', 'conjugate', 'real', 'imag', 'fft', 'ifft',
             'zeros', 'ones', 'zeros_like', 'ones_like']
 
@@ -188,7 +188,7 @@ def _index(ctx, p, rng):
                 ctx.violation('writethrough:raises:%s' % icls, {'index': _fmt(idx), 'shape': shape, 'error': repr(e)[:160]}); continue
         # ---- setitem with the four right-hand-side kinds
         tshape = plain[idx].shape
-        for rk in ('utpm', 'bcast', 'ndarray', 'scalar', 'alias'):
+        for rk in ('utpm', 'bcast', 'leading1', 'ndarray', 'scalar', 'alias'):
             x = UTPM(gen.relayout(data, gen.LAYOUTS[int(rng.integers(len(gen.LAYOUTS)))]))
             model = data.copy()
             if rk == 'alias':
@@ -212,6 +212,12 @@ def _index(ctx, p, rng):
                 continue
             if rk == 'utpm':
                 w = _vals(rng, (D, P) + tshape, vk); rhs = UTPM(w.copy())
+            elif rk == 'leading1':
+                # the right-hand side carries extra leading axes of length 1 (a (1, M) row product stored into a row): NumPy drops them
+                if len(tshape) == 0:
+                    continue
+                ex = (1,) * int(rng.integers(1, 3))
+                w0 = _vals(rng, (D, P) + tshape, vk); rhs = UTPM(w0.reshape((D, P) + ex + tshape).copy()); w = w0
             elif rk == 'bcast':
                 if len(tshape) == 0:
                     continue
@@ -223,7 +229,7 @@ def _index(ctx, p, rng):
                 w = float(rng.normal()); rhs = w
             for d in range(D):
                 for pp in range(P):
-                    if rk in ('utpm', 'bcast'):
+                    if rk in ('utpm', 'bcast', 'leading1'):
                         model[d, pp][idx] = w[d, pp]
                     else:
                         model[d, pp][idx] = w if d == 0 else 0
@@ -451,6 +457,16 @@ def _construct(ctx, p, rng):
                     ok2, y2 = _try(ctx, nm, f)
                     if ok2 and not (isinstance(y2, UTPM) and _eq(y2.data, want)):
                         ctx.violation('%s:earlier-result-modified-by-caller-leaks' % nm, {'shape': str(tshape), 'carrier': shape}); continue
+        # an explicit dtype overrides the prototype: the result has the prototype's shape and the dtype carrier's element type, D and P
+        cdat = _vals(rng, (D + 1, P + 1, 2), 'complex')
+        carrier = UTPM(cdat.copy())
+        for nm, one in (('zeros_like', 0), ('ones_like', 1)):
+            ok, y = _try(ctx, nm, lambda: getattr(algopy, nm)(x, dtype=carrier))
+            if ok:
+                want = np.zeros((D + 1, P + 1) + shape, dtype=complex); want[0] = one
+                if not (isinstance(y, UTPM) and y.data.dtype == want.dtype and _eq(y.data, want)):
+                    ctx.violation('%s:explicit-dtype-ignored' % nm, {'prototype': shape, 'got_shape': getattr(getattr(y, 'data', None), 'shape', None), 'got_dtype': str(getattr(getattr(y, 'data', None), 'dtype', None))}); continue
+                ctx.ok(nm, (nm, 'explicit-dtype', shape, D, P, vk))
         for nm, f, one in (('zeros_like', lambda: algopy.zeros_like(x), 0), ('ones_like', lambda: algopy.ones_like(x), 1), ('zeros_like', lambda: x.zeros_like(), 0), ('ones_like', lambda: x.ones_like(), 1)):
             ok, y = _try(ctx, nm, f)
             if not ok:
